@@ -280,15 +280,17 @@ namespace c16
     return rot[d];
   }
 
+  /// thorough tier: environment C16_DEEP=1 enlarges the grids (one more cell per direction)
+  inline int deep() { static int d = (getenv("C16_DEEP") != nullptr) ? 1 : 0; return d; }
   struct MeshOpts { int dim = 2; bool simplex = false; int max_n = 3; int max_cells = 1000; bool allow_nonaffine = true; bool allow_renumber = true; bool force_unit = false; };
 
   inline RawMesh gen_mesh(vf::Tape& t, const MeshOpts& o)
   {
     RawMesh m; m.dim = o.dim; m.simplex = o.simplex; const int d = o.dim;
     int n[3] = {1, 1, 1};
-    for(int i = 0; i < d; ++i) n[i] = t.sized(1, o.max_n, 1);
+    for(int i = 0; i < d; ++i) n[i] = t.sized(1, o.max_n + deep(), 1);
     // bound the number of grid cells by construction (work bound for heavy element pairs)
-    for(int i = d - 1; i >= 0; --i) { int others = 1; for(int j = 0; j < d; ++j) if(j != i) others *= n[j]; while(n[i] > 1 && n[i] * others > o.max_cells) --n[i]; }
+    for(int i = d - 1; i >= 0; --i) { int others = 1; for(int j = 0; j < d; ++j) if(j != i) others *= n[j]; while(n[i] > 1 && n[i] * others > o.max_cells * (1 + deep())) --n[i]; }
     // grid spacing class: 0 uniform, 1 non-uniform dyadic
     const int gcls = o.force_unit ? 0 : t.pick({2, 1});
     std::vector<double> co[3];
